@@ -41,6 +41,8 @@ def run(prog, chk):
     gap_is_a_number(prog, chk)
     from props import C11
     C11.axis_consistency(prog, chk)  # dx / dy and coordinates never cross axes (shared with C11)
+    C11.emission_algebra(prog, chk)  # the position that was worked out is written as the element's native geometry
+    C11.extraction_algebra(prog, chk)
     from props import C17
     C17.depth_pairing(prog, chk)  # forward references are placed by retrying: a depth count leaked by a deferred attempt turns a valid chain into a limit error
     from props import geomalg
